@@ -80,6 +80,20 @@ def compare(func, rel, qualname, mode='full', **kw):
         a, b = a2, b2
     elif refcmp.equivalent(a, b):
         return (not extra), extra, []
+    # second chance: follow calls to reviewed functions too
+    try:
+        with sym.inline_all():
+            a3 = set(refcmp.signature(p, **kw)
+                     for p in sym.Summarizer().summarize(func))
+            b3 = set(refcmp.signature(p, **kw)
+                     for p in sym.Summarizer().summarize(ref))
+        if mode == 'raises':
+            a3 = set(_raise_sig(x) for x in a3)
+            b3 = set(_raise_sig(x) for x in b3)
+        if refcmp.equivalent(a3, b3):
+            return (not extra), extra, []
+    except AnalysisError:
+        pass
     shw = refcmp.show_sig
     oa = sorted(shw(s) for s in a - b)
     ob = sorted(shw(s) for s in b - a)
